@@ -152,51 +152,64 @@ fn check_pair(a: &Tagged, b: &Tagged, rank: u64) -> Vec<Violation> {
 }
 
 pub fn run(ctx: &Ctx) {
-    let n: u8 = ctx.tier.pick(5, 6);
-    let max_len: usize = ctx.tier.pick(5, 4);
-    let lists: Vec<Tagged> = all_lists(n).into_iter().filter(|l| l.len() <= max_len).collect();
-    let total = (lists.len() * lists.len()) as u64;
-    let res = par_for(
-        total,
-        ctx.threads,
-        4096,
-        Some(ctx.deadline),
-        |_| (0u64, std::collections::HashSet::<Vec<(bool, u8)>>::new()),
-        |acc, idx| {
-            let a = &lists[(idx / lists.len() as u64) as usize];
-            let b = &lists[(idx % lists.len() as u64) as usize];
-            let vs = check_pair(a, b, idx);
-            ctx.report_all(vs);
-            // non-trivial: both lists non-empty, share an item and each has an item of its own
-            let shares = a.iter().any(|(_, x)| b.iter().any(|(_, y)| x == y));
-            let a_own = a.iter().any(|(_, x)| !b.iter().any(|(_, y)| x == y));
-            let b_new = b
-                .iter()
-                .filter(|(_, y)| !a.iter().any(|(_, x)| x == y))
-                .count();
-            if shares && a_own && b_new >= 2 {
-                acc.0 += 1;
-            }
-            if ctx.sample_hash_qualifies(idx) {
-                ctx.sample(idx, || json!({"a": show(a), "b": show(b)}));
-            }
-        },
-    );
-    let nontrivial: u64 = res.accs.iter().map(|a| a.0).sum();
-    ctx.set("evaluations", json!(res.processed * 2));
+    // (alphabet size, maximal list length)
+    let configs: Vec<(u8, usize)> = ctx.tier.pick(vec![(5, 5)], vec![(5, 5), (6, 4)]);
+    let mut evaluations = 0u64;
+    let mut nontrivial = 0u64;
+    let mut complete = true;
+    let mut spaces = Vec::new();
+    for (n, max_len) in configs {
+        let lists: Vec<Tagged> = all_lists(n)
+            .into_iter()
+            .filter(|l| l.len() <= max_len)
+            .collect();
+        let total = (lists.len() * lists.len()) as u64;
+        let res = par_for(
+            total,
+            ctx.threads,
+            4096,
+            Some(ctx.deadline),
+            |_| 0u64,
+            |acc, idx| {
+                let a = &lists[(idx / lists.len() as u64) as usize];
+                let b = &lists[(idx % lists.len() as u64) as usize];
+                // pairs already covered by an earlier configuration are skipped
+                if n == 6 && !a.iter().chain(b.iter()).any(|(_, x)| *x == 5) {
+                    return;
+                }
+                let vs = check_pair(a, b, idx);
+                ctx.report_all(vs);
+                // non-trivial: the lists share an item, the first has an item of its own and
+                // the second brings at least two new items
+                let shares = a.iter().any(|(_, x)| b.iter().any(|(_, y)| x == y));
+                let a_own = a.iter().any(|(_, x)| !b.iter().any(|(_, y)| x == y));
+                let b_new = b
+                    .iter()
+                    .filter(|(_, y)| !a.iter().any(|(_, x)| x == y))
+                    .count();
+                if shares && a_own && b_new >= 2 {
+                    *acc += 1;
+                }
+                if ctx.sample_hash_qualifies(idx) {
+                    ctx.sample(idx, || json!({"a": show(a), "b": show(b)}));
+                }
+            },
+        );
+        evaluations += res.processed * 2;
+        nontrivial += res.accs.iter().sum::<u64>();
+        complete &= res.complete;
+        spaces.push(json!({"items": n, "max_list_length": max_len, "lists": lists.len(), "pairs": total, "pairs_done": res.processed}));
+    }
+    ctx.set("evaluations", json!(evaluations));
     ctx.set("distinct_nontrivial", json!(nontrivial));
     ctx.set(
         "rule",
-        json!(format!(
-            "every ordered pair of duplicate-free tagged lists over {} items with at most {} entries ({} lists, {} pairs), merged once with u8 items and once with String items; pairs are distinct by construction; non-trivial = the lists share an item, the first has an item of its own and the second brings at least two new items",
-            n, max_len, lists.len(), total
-        )),
+        json!("every ordered pair of duplicate-free tagged lists over the alphabets in `spaces`, merged once with u8 items and once with String items (pairs are distinct by construction; the 6-item space only evaluates pairs that use the sixth item); non-trivial = the lists share an item, the first has an item of its own and the second brings at least two new items"),
     );
-    ctx.set("lists", json!(lists.len()));
-    ctx.set("pairs", json!(total));
-    ctx.set("exhaustive", json!(res.complete));
-    if !res.complete {
-        ctx.set("cap", json!(format!("wall budget: {} of {} pairs", res.processed, total)));
+    ctx.set("spaces", json!(spaces));
+    ctx.set("exhaustive", json!(complete));
+    if !complete {
+        ctx.set("cap", json!("wall budget reached; see pairs_done per space"));
     }
 }
 
